@@ -63,6 +63,18 @@ CHECKS['C02'] = {
     'technique': 'deterministic simulation: unbounded / stalling record producers and seam traces (pulls vs writes), seeded query and producer search, reference-model comparison',
 }
 
+CHECKS['C20'] = {
+    'level': 'exploration',
+    'text': ('Seeded search over chunk boundaries, per-chunk delivery timing (sync push, nextTick, promise continuation, setImmediate), consumer pacing (get_all_records, manual '
+             'loop with event-loop turns between calls, header pre-read with pause/resume, full rbql.query) and highWaterMark, with a real Node stream.Readable driven by an explicit '
+             'plan: all chunkings of inputs up to 7 bytes, sampled chunkings for longer ones, plus > 64 KiB files through fs.createReadStream. Every outcome (records, header, warnings) '
+             'must equal bulk reading of the same bytes, valid UTF-8 must never be rejected, and every pending get_record must settle within 8 event-loop turns after EOF. Sampling.'),
+    'design_ref': 'DESIGN.md 3.6',
+    'note': ('Trusted: bulk mode of the same reader as reference (the property\'s own reference), Node\'s Readable and TextDecoder. Only valid UTF-8 / binary inputs are generated. '
+             'Stream error events and stop()/destroy() are not simulated.'),
+    'technique': 'deterministic simulation: plan-driven Node Readable (chunking x timing class x consumer pacing), differential vs bulk read, turn-counted liveness watchdog',
+}
+
 NOT_APPLICABLE = {
     'C01': 'pure function of (query text, table): no stream schedule, interleaving, history or fault in the statement, nothing for a simulator to own',
     'C03': 'aggregate values are a pure function of the group records in input order; accumulator state never meets a seam',
@@ -80,7 +92,7 @@ NOT_APPLICABLE = {
     'C19': 'JS engine vs reference semantics is a pure differential statement; its last clause (caller arrays unmodified) is observed by the C06 JS workload',
 }
 
-PENDING = {pid: 'check not built yet in this commit (simulation target, planned in DESIGN.md section 3); not claimed until its check exists' for pid in ('C06', 'C20')}
+PENDING = {pid: 'check not built yet in this commit (simulation target, planned in DESIGN.md section 3); not claimed until its check exists' for pid in ('C06',)}
 
 
 def main():
